@@ -91,11 +91,16 @@ func (p vPt) String() string {
 	return "(" + p.x.Text(16) + "," + p.y.Text(16) + ")"
 }
 
+// vFeOf builds the field element with value v directly from its Montgomery limbs (v * 2^256 mod p): no code of the
+// library is involved in constructing replay operands.
 func vFeOf(v *big.Int) field.Element {
-	var b [32]byte
-	new(big.Int).Mod(v, vP).FillBytes(b[:])
-	e, _ := field.New().FromBytesWithReduce(b)
-	return *e
+	m := new(big.Int).Mod(new(big.Int).Lsh(new(big.Int).Mod(v, vP), 256), vP)
+	var e field.Element
+	mask := new(big.Int).SetUint64(^uint64(0))
+	for i := 0; i < 4; i++ {
+		e.E[i] = new(big.Int).And(new(big.Int).Rsh(m, uint(64*i)), mask).Uint64()
+	}
+	return e
 }
 
 func vFeVal(e *field.Element) *big.Int { return new(big.Int).SetBytes(e.Bytes()) }
